@@ -239,6 +239,14 @@ impl Expr {
                         _ => bail!("invalid left operand for {op} (cannot apply to {})", lhs.for_type(flags)?),
                     }
                 } else {
+                    if let (Op::Unwrap, Expr::Value(Value::Ident(ident))) = (op, lhs.as_ref()) {
+                        if ident.is_const() {
+                            bail!(
+                                "cannot reassign using {op} to {}, which is const",
+                                ident.name()
+                            )
+                        }
+                    }
                     Cow::Owned(lhs.for_type(flags)?)
                 };
 
